@@ -55,6 +55,20 @@ fn chk_indices(total: usize, rng: &mut Rng, full_upto: usize) -> Vec<usize> {
     }
 }
 
+fn rm_over_width(w: usize, cm: &ColMatrix<Toy>, domain: &StarkDomain<Toy>) -> RowMatrix<Toy> {
+    match w {
+        1 => RowMatrix::<Toy>::evaluate_polys_over::<1>(cm, domain),
+        2 => RowMatrix::<Toy>::evaluate_polys_over::<2>(cm, domain),
+        3 => RowMatrix::<Toy>::evaluate_polys_over::<3>(cm, domain),
+        4 => RowMatrix::<Toy>::evaluate_polys_over::<4>(cm, domain),
+        5 => RowMatrix::<Toy>::evaluate_polys_over::<5>(cm, domain),
+        6 => RowMatrix::<Toy>::evaluate_polys_over::<6>(cm, domain),
+        7 => RowMatrix::<Toy>::evaluate_polys_over::<7>(cm, domain),
+        12 => RowMatrix::<Toy>::evaluate_polys_over::<12>(cm, domain),
+        _ => RowMatrix::<Toy>::evaluate_polys_over::<16>(cm, domain),
+    }
+}
+
 pub fn main(args: &[String]) -> i32 {
     let path = arg_value(args, "--scenarios").expect("--scenarios");
     let outp = arg_value(args, "--out").expect("--out");
@@ -129,6 +143,14 @@ pub fn main(args: &[String]) -> i32 {
                 ev.push(json!({"ev": "matrix", "fn": "RowMatrix::evaluate_polys_over<8>", "n": n, "blowup": b, "offset": offset.v(), "rows": rm.num_rows(), "cols": rm.num_cols(),
                                "polys": pj, "chk": picks.iter().map(|p| vec![p.0, p.1]).collect::<Vec<_>>(),
                                "vals": picks.iter().map(|p| rm.get(p.1, p.0).v()).collect::<Vec<_>>()}));
+                // other segment widths (any N >= 1 is documented): two per configuration, rotating over 1..7, 12 and 16
+                const WIDTHS: [usize; 9] = [1, 2, 3, 4, 5, 6, 7, 12, 16];
+                for w in [WIDTHS[ci % 9], WIDTHS[(ci + 4) % 9]] {
+                    let rmw = rm_over_width(w, &cm, &domain);
+                    ev.push(json!({"ev": "matrix", "fn": format!("RowMatrix::evaluate_polys_over<{w}>"), "n": n, "blowup": b, "offset": offset.v(), "rows": rmw.num_rows(), "cols": rmw.num_cols(),
+                                   "polys": pj, "chk": picks.iter().map(|p| vec![p.0, p.1]).collect::<Vec<_>>(),
+                                   "vals": picks.iter().map(|p| rmw.get(p.1, p.0).v()).collect::<Vec<_>>()}));
+                }
                 if c.lb > 0 && offset == Toy::GENERATOR {
                     let rm2 = RowMatrix::<Toy>::evaluate_polys::<8>(&cm, b);
                     ev.push(json!({"ev": "matrix", "fn": "RowMatrix::evaluate_polys<8>", "n": n, "blowup": b, "offset": offset.v(), "rows": rm2.num_rows(), "cols": rm2.num_cols(),
